@@ -12,6 +12,17 @@ var VerifPath func(tier int)
 // VerifWide, when set, is told that Eisel-Lemire took the wider approximation.
 var VerifWide func()
 
+// VerifScan, when set, is told what readFloat extracted from the literal:
+// the (possibly truncated) decimal mantissa, the decimal exponent that goes
+// with it, sign, truncation flag, bytes consumed and whether it accepted.
+var VerifScan func(mantissa uint64, exp int, neg, trunc bool, n int, ok bool)
+
+func verifScan(mantissa uint64, exp int, neg, trunc bool, n int, ok bool) {
+	if VerifScan != nil {
+		VerifScan(mantissa, exp, neg, trunc, n, ok)
+	}
+}
+
 func verifPath(tier int) {
 	if VerifPath != nil {
 		VerifPath(tier)
